@@ -103,8 +103,11 @@ def run(tier, seed, replay=None):
     max_n = 5 if tier == "quick" else 6
     alphabet = ["a", " ", "\n", "(", "#"]
     k = 0
-    for n in range(0, max_n + 1):
-        for chars in itertools.product(alphabet, repeat=n):
+    # second, smaller enumeration with the characters str.splitlines() treats as line boundaries but "\n" counting must not
+    exotic = [(n, chars) for n in range(1, 5) for chars in itertools.product(["a", "\n", "\x0c", "\r", "\u2028", "\x0b"], repeat=n)
+              if any(c in chars for c in ("\x0c", "\r", "\u2028", "\x0b"))]
+    for n, chars in [(n, chars) for n in range(0, max_n + 1) for chars in itertools.product(alphabet, repeat=n)] + exotic:
+        if True:
             code = "".join(chars)
             for segs in segmentations(n):
                 k += 1
